@@ -112,7 +112,7 @@ func genCase0(t *rapid.T) *Case {
 	}
 	c.Ops = rapid.SliceOfN(genOp(n), 1, 40).Draw(t, "ops")
 	if rapid.IntRange(0, 9).Draw(t, "emptyFirst") == 0 {
-		c.EmptyFirst = rapid.IntRange(1, 2).Draw(t, "emptyKind")
+		c.EmptyFirst = rapid.IntRange(1, 3).Draw(t, "emptyKind")
 	}
 	if rapid.IntRange(0, 4).Draw(t, "editOpts") == 0 {
 		c.EditOpts = rapid.IntRange(1, 4).Draw(t, "editKind")
